@@ -20,7 +20,7 @@ func MapKeys[K comparable, V any](m map[K]V) []K {
 	}
 	s := getCur()
 	ok := canonicalSort(keys, func(i int) reflect.Value { return reflect.ValueOf(keys[i]) },
-		func(i, j int) { keys[i], keys[j] = keys[j], keys[i] }, s)
+		func(i, j int) { keys[i], keys[j] = keys[j], keys[i] }, s, func(i int) interface{} { return m[keys[i]] })
 	if !ok {
 		noteUnlabelled(s)
 		return keys
@@ -45,7 +45,7 @@ func RangeSyncMap(m *sync.Map, f func(key, value interface{}) bool) {
 	s := getCur()
 	if len(all) >= 2 {
 		ok := canonicalSort(all, func(i int) reflect.Value { return reflect.ValueOf(all[i].k) },
-			func(i, j int) { all[i], all[j] = all[j], all[i] }, s)
+			func(i, j int) { all[i], all[j] = all[j], all[i] }, s, func(i int) interface{} { return all[i].v })
 		if ok {
 			permute(len(all), func(i, j int) { all[i], all[j] = all[j], all[i] }, s)
 		} else {
@@ -74,7 +74,7 @@ func (s sorter) Swap(i, j int)      { s.swap(i, j) }
 
 // canonicalSort sorts n elements whose keys are given by key(i). It returns
 // false when the key type has no canonical order (unlabelled pointers).
-func canonicalSort(slice interface{}, key func(int) reflect.Value, swap func(i, j int), s *Sim) bool {
+func canonicalSort(slice interface{}, key func(int) reflect.Value, swap func(i, j int), s *Sim, val func(int) interface{}) bool {
 	n := reflect.ValueOf(slice).Len()
 	if n == 0 {
 		return true
@@ -95,13 +95,32 @@ func canonicalSort(slice interface{}, key func(int) reflect.Value, swap func(i, 
 		return true
 	case reflect.Ptr, reflect.UnsafePointer:
 		labels := s.cfg.Labels
-		if labels == nil {
-			return false
-		}
-		for i := 0; i < n; i++ {
+		labelled := labels != nil
+		for i := 0; labelled && i < n; i++ {
 			if _, ok := labels[unsafe.Pointer(key(i).Pointer())]; !ok {
+				labelled = false
+			}
+		}
+		if !labelled {
+			// no ranks for these pointers (the program under test made the
+			// objects itself): order them by what the harness can say about
+			// their content; objects it cannot tell apart keep Go's order
+			if s.cfg.KeyFn == nil || k0.Kind() != reflect.Ptr {
 				return false
 			}
+			keys := make([]string, n)
+			for i := 0; i < n; i++ {
+				ks, ok := s.cfg.KeyFn(key(i).Interface(), val(i))
+				if !ok {
+					return false
+				}
+				keys[i] = ks
+			}
+			sort.Stable(sorter{n, func(i, j int) bool { return keys[i] < keys[j] }, func(i, j int) {
+				keys[i], keys[j] = keys[j], keys[i]
+				swap(i, j)
+			}})
+			return true
 		}
 		sort.Stable(sorter{n, func(i, j int) bool {
 			return labels[unsafe.Pointer(key(i).Pointer())] < labels[unsafe.Pointer(key(j).Pointer())]
